@@ -147,6 +147,13 @@ def step (s : St) (ws : List String) : St × List String :=
     | some is =>
       if is.any (· ≥ s.n) then (s, ["bad-op"]) else (s.mapW fun w => { w with fails := fun i => i ∈ is }, [])
     | none => (s, ["bad-op"])
+  | "unfail" :: is =>
+    -- the user clears `failed` flags by hand between two pulls
+    match nats is with
+    | some is =>
+      if is.any (· ≥ s.n) then (s, ["bad-op"]) else
+      (s.mapW fun w => { w with failed := fun i => if i ∈ is then false else w.failed i }, [])
+    | none => (s, ["bad-op"])
   | "running" :: is =>
     match nats is with
     | some is =>
